@@ -4,6 +4,7 @@ E2 stateless sequence explorer: every history update/solve of bounded depth over
 pattern of a 3x3 matrix (real, complex, symmetric, Hermitian, complex symmetric), a 12-entry right-hand-side
 alphabet and the three modes; each history is replayed on a FRESH wrapper with pmc.refs.solver.SpanModel in
 lock-step; the oracle is evaluated after every solve."""
+import os
 import itertools
 import numpy as np
 from pmc.refs import solver as rs
@@ -235,10 +236,10 @@ def cause(case, seq, k, A, b, tr, flags, fresh):
         return 'initial_guess_with_nonempty_database'
     if last_upd >= 0 and before[last_upd][1].startswith('class'):
         return 'after_update_to_other_class'
+    if not np.iscomplexobj(b) and not np.iscomplexobj(A) and any(o[1] in ('bc', 'ib1') for o in since):
+        return 'real_rhs_after_complex_rhs'      # real matrix, real rhs, complex vectors in the database
     if any(o[1] in ('blkdep', 'blksum') for o in since):
         return 'after_block_with_dependent_columns'
-    if not np.iscomplexobj(b) and any(o[1] in ('bc', 'ib1') for o in since):
-        return 'real_rhs_after_complex_rhs'
     if last_upd >= 0 and not since:
         return 'first_solve_after_update'
     return 'history'
@@ -387,6 +388,8 @@ def bounds(tier, seed):
 def generate(tier, seed):
     t = seed % len(VALS)
     names = all_matrix_names()
+    if os.environ.get('PMC_C06_ONLY'):      # development aid: restrict the matrix set (never set by registered commands)
+        names = [nm for nm in names if nm in os.environ['PMC_C06_ONLY'].split(',')]
     first = solve_ops(RHS_FULL)
 
     small_first = {tuple(o) for o in solve_ops(RHS_SMALL)}
